@@ -706,6 +706,18 @@ let run_cluster (path : string) =
         | ["pollsup"; node] -> kput (kpoll_sup (kget ()) (cl_of_string node)); "Polled"
         | ["pollrepl"; node] -> kput (kpoll_repl (kget ()) (cl_of_string node)); "Polled"
         | ["kill"; node] -> if !e.e_frames <> [] then "NotQuiescent" else (kput (kkill (kget ()) (cl_of_string node)); "Killed")
+        | ["revive"; node] ->
+          (* the dead node's process is started again on an empty disk: a fresh node under the same name (its clock goes on) *)
+          if not (List.mem node !dead_nodes) then "NotDead" else begin
+            let nm = cl_of_string node in
+            let pid = List.fold_left (fun acc h -> match String.split_on_char '/' h with
+                | [name; _; pid] when name = node -> n_of_dec pid | _ -> acc) (n_of_int 1) cs.header in
+            let clk = (match get_cn !c nm with Some x -> x.cn_node.n_clock | None -> clock0) in
+            let fresh = init_cnode (cl_of_string "nun") (cl_of_string "pwd") nm pid StartingUp clock0 in
+            let fresh = { fresh with cn_node = n_set_clock fresh.cn_node clk } in
+            c := put_cn !c nm fresh;
+            dead_nodes := List.filter (fun d -> d <> node) !dead_nodes;
+            "Revived" end
         | ["deliver"; f; t] ->
           (match find_link !c f t with
            | None -> "NoLink"
@@ -733,7 +745,7 @@ let run_cluster (path : string) =
         | _ -> failwith "bad cluster op" in
       (* ops that went through the plain cluster functions changed [c] only *)
       (match op with
-       | ("cmd" | "tick" | "deliver" | "reply" | "settle" | "pollsup" | "pollrepl" | "kill") :: _ -> ()
+       | ("cmd" | "tick" | "deliver" | "reply" | "settle" | "pollsup" | "pollrepl" | "kill" | "revive") :: _ -> ()
        | _ -> sync_in ());
       let res = if !e.e_done = [] then res0 else begin
           let d = String.concat "," (List.map (fun (nm, k) -> Printf.sprintf "%s/%d:Ok" (string_of_cl nm) (int_of_nat k)) !e.e_done) in
